@@ -94,7 +94,7 @@ def stratified_sample(points, n, rng, key=lambda p: (p["file"], p["qual"])):
 KILL_ACTIONS = [["kill", "SIGKILL"], ["kill", "SIGSEGV"], ["kill", "SIGTERM"], ["exit", 3], ["cexit", 5], ["exit", 0], ["kill", 35], ["exit", 255], ["kill", "SIGUSR1"]]
 
 
-DRIVER_FILES = ("process_executor.py", "reusable_executor.py", "backend/queues.py", "mp/queues.py", "backend/synchronize.py", "mp/util.py",
+DRIVER_FILES = ("process_executor.py", "reusable_executor.py", "backend/queues.py", "mp/queues.py", "backend/synchronize.py", "mp/util.py", "mp/process.py",
                 "backend/popen_loky_posix.py", "backend/process.py", "backend/fork_exec.py", "backend/spawn.py", "backend/reduction.py")
 WORKER_FILES = ("process_executor.py", "backend/queues.py", "mp/queues.py", "backend/popen_loky_posix.py", "mp/process.py",
                 "backend/synchronize.py", "backend/spawn.py", "backend/process.py", "mp/util.py")
@@ -150,3 +150,16 @@ def derive_WD(F, base, rng, n, quals=None, delay=None):
 
 def derive_Z(rng, n, p=0.03, dmax=0.02):
     return [({"seed": rng.randint(0, 10**6), "rules": [{"role": "*", "action": ["jitter", p, dmax]}]}, {"mode": "Z"}) for _ in range(n)]
+
+
+def derive_DS(F, base, rng, n=2, quals=("BaseProcess.sentinel",), d=None):
+    """Sustained small delay on EVERY hit of a short accessor that the manager thread calls in a loop
+    (e.g. the sentinel getter inside the comprehension that builds its wait list): turns a microsecond
+    window that recurs on every loop iteration into a wide one, without choosing a particular hit."""
+    out = []
+    pts = points_of(F, role="driver", thr="mgr", quals=list(quals))
+    for pt in stratified_sample(pts, n, rng, key=lambda p: (p["qual"], p["rel"])):
+        t = (base.get("meta", {}).get("kw") or {}).get("timeout")
+        dd = d if d is not None else (min(0.02, max(0.002, t)) if t else 0.01)
+        out.append(({"rules": [rule(pt, ["sleep", round(dd, 4)], hit=0)]}, {"mode": "DS", "fn": pt["qual"], "thr": "mgr"}))
+    return out
